@@ -296,8 +296,24 @@ func c05RunNoTree(m *xpath.Machine) (o xpmock.Outcome) {
 	return o
 }
 
+// c05Endings: texts that stop inside a token that needs a look-ahead, with and without blanks before it.
+var c05Endings = func() []string {
+	var out []string
+	for _, head := range []string{"a", "../pfx", "a = b", "count(a)", "/a/b[k = 1]", "1", "'s'", "pfx:a"} {
+		for _, sep := range []string{"", " ", "\t", "\n", "  "} {
+			for _, tail := range []string{":", "::", ": ", ":a", ".", "..", "/", "//", "!", "!=", "<", "<=", ">", "o", "or", "an", "and", "di", "div", "mo", "mod", "*", "|", "[", "(", "@", "$", "-", "+", "=", ",", "'", "\""} {
+				out = append(out, head+sep+tail)
+			}
+		}
+	}
+	return out
+}()
+
 func c05CompileInputs(r *core.Rng) []string {
 	var out []string
+	for i := 0; i < 3; i++ {
+		out = append(out, core.Pick(r, c05Endings))
+	}
 	// calls of functions that are in no table
 	out = append(out, core.Pick(r, []string{"site-fn(../a) = 1", "site-fn()", "other-fn(../a) = 1", "site-fn(1, 'x') and count(a) > 0", "count(site-x(a)) + nosuchfn(1)",
 		"site-(1)", "site-fn(site-fn(site-fn(a)))", "text() and site-fn()", "/a[site-k(.) = 1]/b"}))
